@@ -286,7 +286,7 @@ func (rn *runner) count(sig string, batch []Item) {
 			res.Count("items_partially_empty_scope", 1)
 		}
 		s := string(it.FV)
-		for _, c := range []string{"cbig", "cmax32", "tpre", "tzero", "tfar", "kmax", "vnan", "vmax", "bdeep", "bempty", "abound", "L3", "L4", "mmx", "dsub"} {
+		for _, c := range []string{"cbig", "cmax32", "tpre", "tzero", "tfar", "kmax", "vnan", "vmax", "bdeep", "bempty", "abound", "L3", "L4", "L5", "L6", "L7", "L8", "mmx", "dsub"} {
 			if strings.Contains(s, `"`+c+`"`) {
 				res.Count("class_"+c, 1)
 			}
@@ -501,6 +501,8 @@ func main() {
 		e2e(os.Args[2:])
 	case "probe":
 		probe(os.Args[2:])
+	case "interleave":
+		interleave(os.Args[2:])
 	default:
 		os.Exit(3)
 	}
